@@ -97,6 +97,12 @@ pub fn date_str(d: i64) -> String {
 }
 
 pub fn render(input: &Value) -> Rendered {
+    render_with(input, false)
+}
+
+/// `format_first`: in a commodity declaration the `format` sub-directive precedes the aliases
+/// (the order of sub-directives carries no meaning; both orders are exercised).
+pub fn render_with(input: &Value, format_first: bool) -> Rendered {
     let mut text = String::new();
     let mut entry_lines = Vec::new();
     let mut post_lines = Vec::new();
@@ -126,15 +132,20 @@ pub fn render(input: &Value) -> Rendered {
             "cmdt" => {
                 text.push_str(&format!("commodity {}\n", e["name"].as_str().unwrap()));
                 line += 1;
+                let prec = e["prec"].as_i64().unwrap();
+                let fmt_line = if prec >= 0 {
+                    let frac = if prec > 0 { format!(".{}", "0".repeat(prec as usize)) } else { String::new() };
+                    Some(format!("    format 1,000{} {}\n", frac, e["name"].as_str().unwrap()))
+                } else { None };
+                if format_first {
+                    if let Some(f) = &fmt_line { text.push_str(f); line += 1; }
+                }
                 for a in e["aliases"].as_array().unwrap() {
                     text.push_str(&format!("    alias {}\n", a.as_str().unwrap()));
                     line += 1;
                 }
-                let prec = e["prec"].as_i64().unwrap();
-                if prec >= 0 {
-                    let frac = if prec > 0 { format!(".{}", "0".repeat(prec as usize)) } else { String::new() };
-                    text.push_str(&format!("    format 1,000{} {}\n", frac, e["name"].as_str().unwrap()));
-                    line += 1;
+                if !format_first {
+                    if let Some(f) = &fmt_line { text.push_str(f); line += 1; }
                 }
             }
             k => panic!("unknown entry kind {}", k),
@@ -329,8 +340,12 @@ pub fn classes(rec: &Value) -> Vec<String> {
 }
 
 /// Compares the code's outcome on `rec.input` with `rec.expect`.
-pub fn replay(_idx: usize, rec: &Value) -> Value {
-    let r = render(&rec["input"]);
+pub fn replay(idx: usize, rec: &Value) -> Value {
+    replay_with(idx, rec, false)
+}
+
+pub fn replay_with(_idx: usize, rec: &Value, format_first: bool) -> Value {
+    let r = render_with(&rec["input"], format_first);
     let ex = &rec["expect"];
     let out = run_process(&r.text);
     let mut viols = Vec::new();
@@ -483,6 +498,21 @@ pub fn substitute(input: &Value, at: &Value, cm: &Value) -> Value {
 
 pub fn replay_alias(idx: usize, rec: &Value, workdir: &str) -> Value {
     let base = replay(idx, rec);
+    // the same behaviour with `format` written before the aliases of a commodity declaration
+    let has_both = rec["input"].as_array().unwrap().iter().any(|e| e["k"] == "cmdt" && e["prec"].as_i64().unwrap_or(-1) >= 0 && !e["aliases"].as_array().unwrap().is_empty());
+    if base["ok"] == true && has_both {
+        let second = replay_with(idx, rec, true);
+        if second["ok"] != true {
+            let mut v = second;
+            if let Some(arr) = v["viol"].as_array_mut() {
+                for x in arr.iter_mut() {
+                    let m = x["msg"].as_str().unwrap_or("").to_string();
+                    x["msg"] = json!(format!("(with `format` before `alias` in the commodity declaration) {}", m));
+                }
+            }
+            return v;
+        }
+    }
     let ex = &rec["expect"];
     if base["ok"] != true || ex["verdict"] != "ok" {
         return base;
